@@ -1,0 +1,11 @@
+// Copyright (C) 2024 Storj Labs, Inc.
+// See LICENSE for copying information.
+
+//go:build !verif
+// +build !verif
+
+package drpcdebug
+
+// Point marks a scheduling point for verification harnesses. It is a no-op
+// unless built with the verif tag.
+func Point(name string) {}
